@@ -104,6 +104,8 @@ type exec struct {
 	state map[uint64]bool
 	trace bool
 	fatal bool // an oracle failed in a way that makes the rest of the history meaningless
+	// concurrent families: harness tasks serialise their (rare) writes to res through these
+	lock, unlock func()
 }
 
 func newExec(sc Scenario) *exec {
@@ -111,6 +113,10 @@ func newExec(sc Scenario) *exec {
 }
 
 func (e *exec) violate(oracle, key, detail string) {
+	if e.lock != nil {
+		e.lock()
+		defer e.unlock()
+	}
 	e.fatal = true
 	if len(e.res.Violations) < 20 {
 		e.res.Violations = append(e.res.Violations, Violation{Oracle: oracle, Key: key, Detail: detail, Step: e.step})
@@ -120,6 +126,10 @@ func (e *exec) violate(oracle, key, detail string) {
 // violateSoft records a violation after which the run's state is still meaningful, so the
 // history continues (one record per signature and run).
 func (e *exec) violateSoft(oracle, key, detail string) {
+	if e.lock != nil {
+		e.lock()
+		defer e.unlock()
+	}
 	for _, v := range e.res.Violations {
 		if v.Oracle == oracle && v.Key == key {
 			return
@@ -130,7 +140,13 @@ func (e *exec) violateSoft(oracle, key, detail string) {
 	}
 }
 
-func (e *exec) probe(name string) { e.res.Probes[name]++ }
+func (e *exec) probe(name string) {
+	if e.lock != nil {
+		e.lock()
+		defer e.unlock()
+	}
+	e.res.Probes[name]++
+}
 
 func (e *exec) note(format string, a ...interface{}) {
 	if len(e.res.Notes) < 50 {
